@@ -605,16 +605,68 @@ Definition tau_labels (s : st) : list lab :=
   flat_map (fun th => [TValidate th; TLock th; TBodySched th 0; TBodyStop th; TUnlock th]) (seq 0 (length (thr s)))
   ++ flat_map (fun k => [TFire k; TCbLock k; TCbSend k; TCbSchedule k 0; TCbUnlock k]) (seq 0 (length (timers s))).
 
+(* The matcher's search is guided by the recorded ticks: a timer is fired only at the clock value
+   carried by the next tick still to be received (a callback that sends nothing - stale generation, or
+   buffer full - has no visible effect, and firing a timer later than its deadline is always allowed,
+   so no producible history is lost).  [mstep] is [step] restricted in this way; every run of [mstep]
+   is a run of [step] (XTimeProofs.mstep_sound). *)
+Definition mst : Type := st * list Z.
+
+Definition mstep (ms : mst) (l : lab) : option mst :=
+  let '(s, pend) := ms in
+  match l with
+  | TFire _ =>
+      match pend with
+      | v :: _ => if now s =? v then option_map (fun s' => (s', pend)) (step s l) else None
+      | [] => None
+      end
+  | LRecv v =>
+      match pend with
+      | v' :: pend' => if v =? v' then option_map (fun s' => (s', pend')) (step s l) else None
+      | [] => None
+      end
+  | _ => option_map (fun s' => (s', pend)) (step s l)
+  end.
+
+Definition mst_eqb (a b : mst) : bool := st_eqb (fst a) (fst b) && list_eqb Z.eqb (snd a) (snd b).
+
+Fixpoint recv_values (evs : list lab) : list Z :=
+  match evs with
+  | [] => []
+  | LRecv v :: t => v :: recv_values t
+  | _ :: t => recv_values t
+  end.
+
 (* A recorded JitterTicker scenario: n goroutines and the events, every recorded event preceded by an
    [LTick t] with its timestamp; a tick value v received from C appears as [LTick v; LRecv v] at the
    position of v among the timestamps (v is the clock value read inside the callback). *)
 Definition accepts_history (n : nat) (evs : list lab) : bool :=
-  accepts step vis lab_eqb st_eqb tau_labels (fun _ e => [e]) 64 (tinit n) evs.
+  accepts mstep vis lab_eqb mst_eqb (fun ms => tau_labels (fst ms)) (fun _ e => [e]) 64
+          (tinit n, recv_values evs) evs.
 
 Definition first_rejected (n : nat) (evs : list lab) : option nat :=
-  first_reject step vis lab_eqb st_eqb tau_labels (fun _ e => [e]) 64
-               (close step vis st_eqb tau_labels 64 [tinit n]) evs O.
+  first_reject mstep vis lab_eqb mst_eqb (fun ms => tau_labels (fst ms)) (fun _ e => [e]) 64
+               (close mstep vis mst_eqb (fun ms => tau_labels (fst ms)) 64 [(tinit n, recv_values evs)]) evs O.
 
 Definition check_ticker (c : nat * list lab) : bool := let '(n, evs) := c in accepts_history n evs.
+
+(* the same matcher for the historical code (used by examples only) *)
+Definition mstep_old (ms : mst) (l : lab) : option mst :=
+  let '(s, pend) := ms in
+  match l with
+  | TFire _ =>
+      match pend with
+      | v :: _ => if now s =? v then option_map (fun s' => (s', pend)) (step_old s l) else None
+      | [] => None
+      end
+  | LRecv v =>
+      match pend with
+      | v' :: pend' => if v =? v' then option_map (fun s' => (s', pend')) (step_old s l) else None
+      | [] => None
+      end
+  | _ => option_map (fun s' => (s', pend)) (step_old s l)
+  end.
 Definition check_ticker_old (c : nat * list lab) : bool :=
-  let '(n, evs) := c in accepts step_old vis lab_eqb st_eqb tau_labels (fun _ e => [e]) 64 (tinit n) evs.
+  let '(n, evs) := c in
+  accepts mstep_old vis lab_eqb mst_eqb (fun ms => tau_labels (fst ms)) (fun _ e => [e]) 64
+          (tinit n, recv_values evs) evs.
